@@ -74,6 +74,10 @@ def run(ck, ix, tier):
         raise AnalysisError("_parse_wrap_args: classification loop not found")
     lp = loops[0]
     body_first = [v for (v, lab) in cfg.succ[lp.id] if lab == "t"]
+    from .. import shape
+    tgt = lp.stmt.target if hasattr(lp, "stmt") and isinstance(lp.stmt, ast.For) else None
+    spec_var = tgt.elts[1].elts[0].id if isinstance(tgt, ast.Tuple) and len(tgt.elts) == 2 and isinstance(tgt.elts[1], ast.Tuple) and isinstance(tgt.elts[1].elts[0], ast.Name) else "arg"
+    none_edges = set(shape.guard_edges(cfg, lambda a: isinstance(a, ast.Compare) and isinstance(a.ops[0], ast.Is) and norm(a.left) == spec_var and norm(a.comparators[0]) == "None"))
     sets = ("defs_args_ndx", "dependent_args_ndx", "unit_args_ndx")
     bad = []
     n_paths = 0
@@ -88,7 +92,7 @@ def run(ck, ix, tier):
             if cfg.nodes[nid].kind == "stmt" and isinstance(a, ast.Continue):
                 none_path = True
         # the None path is the true edge of `arg is None`
-        took_none = any(cfg.nodes[nid].kind == "test" and norm(cfg.nodes[nid].ast) == "arg is None" and (path[i + 1] if i + 1 < len(path) else None) in [v for (v, lab) in cfg.succ[nid] if lab == "t"] for i, nid in enumerate(path))
+        took_none = any((nid, lab) in none_edges for i, nid in enumerate(path) for (v, lab) in cfg.succ[nid] if i + 1 < len(path) and v == path[i + 1])
         if took_none:
             if adds:
                 bad.append(("None specification is classified", adds))
@@ -97,12 +101,19 @@ def run(ck, ix, tier):
     ck.extra["classification_paths"] = n_paths
     ck.check(not bad and n_paths >= 4, "G-EXH", "_parse_wrap_args|every-index-classified-exactly-once", f.loc(lp.ast), f"{n_paths} paths: every non-None index lands in exactly one set, None in none",
              f"classification loop: {bad[:2]} (an argument would be converted twice, or not at all)")
-    tests = [n for n in cfg.nodes if n.kind == "test" and "not in defs_args" in norm(n.ast)]
-    ok = len(tests) == 1 and norm(tests[0].ast) == "value == 1 and key not in defs_args"
+    tests = [n for n in cfg.nodes if n.kind == "test" and "in defs_args" in norm(n.ast)]
+    # the single (name, exponent) pair of a one-name reference, whatever the locals are called
+    pair = [a for a in walk_local(f.node) if isinstance(a, ast.Assign) and isinstance(a.targets[0], (ast.List, ast.Tuple)) and len(a.targets[0].elts) == 1 and isinstance(a.targets[0].elts[0], ast.Tuple)
+            and len(a.targets[0].elts[0].elts) == 2 and norm(a.value) == f"{spec_var}.items()"]
+    kname, vname = (pair[0].targets[0].elts[0].elts[0].id, pair[0].targets[0].elts[0].elts[1].id) if pair else ("key", "value")
+    ok = False
+    if len(tests) == 1:
+        facts = {(norm(p_), truth) for p_, truth in shape.conjuncts(tests[0].ast, "t")}
+        ok = facts == {(f"{vname} == 1", True), (f"{kname} in defs_args", False)}
     ck.check(ok, "G-EXH", "_parse_wrap_args|definition-iff-exponent-1-and-new-name", f.loc(tests[0].ast) if tests else f.loc(), "a reference defines a name only with exponent 1 and when the name is new",
              f"`{norm(tests[0].ast) if tests else '?'}`: '=A**2' listed before '=A' would be taken as the definition of A")
     src = norm(f.node)
-    ck.check("if not set(arg.keys()) <= defs_args" in src and "raise ValueError" in src, "G-DOM", "_parse_wrap_args|dependent-names-must-be-defined", f.loc(), "dependent specifications using undefined names are rejected", "the check that dependent specifications only use defined names is gone")
+    ck.check(("<= defs_args" in src or "issubset(defs_args)" in src) and "raise ValueError" in src, "G-DOM", "_parse_wrap_args|dependent-names-must-be-defined", f.loc(), "dependent specifications using undefined names are rejected", "the check that dependent specifications only use defined names is gone")
     ck.check("args_as_uc = [_to_units_container(arg, registry) for arg in args]" in src, "G-PROV", "_parse_wrap_args|specs-parsed-in-order", f.loc(), "specifications parsed positionally", "the positional parsing of specifications changed")
     f2 = ix.func(RH, "_to_units_container")
     ck.check("if isinstance(a, str) and '=' in a" in norm(f2.node) and "a.split('=', 1)[1]" in norm(f2.node), "G-PROV", "_to_units_container|reference-is-after-equals", f2.loc(), "'=X' denotes a reference to X", "_to_units_container no longer treats '=X' as a reference to X")
@@ -130,25 +141,46 @@ def run(ck, ix, tier):
     ck.check(ok, "G-PROV", "_converter|dependent-pass-converts-to-derived-units", c.loc(l2), "converted from the value's own units (dimensionless for bare numbers) to the units derived from the named values", "the dependent pass no longer converts (magnitude, units-or-dimensionless) to _replace_units(spec, values_by_name)")
     # unit pass
     cfgc = cfg_of(c)
-    s3 = norm(l3)
-    ck.check("isinstance(values[ndx], ureg.Quantity)" in s3 and "ureg._convert(values[ndx]._magnitude, values[ndx]._units, args_as_uc[ndx][0])" in s3, "G-PROV", "_converter|quantities-converted-to-declared-units", c.loc(l3), "quantities converted to the declared units through ureg._convert", "quantities are no longer converted with ureg._convert(magnitude, units, declared units)")
-    strict = [t for t in ast.walk(l3) if isinstance(t, ast.If) and norm(t.test) == "strict"]
-    ok = len(strict) == 1 and not strict[0].orelse and any(isinstance(r, ast.Raise) and "ValueError" in norm(r) for r in ast.walk(strict[0]))
-    ck.check(ok, "G-DOM", "_converter|strict-refuses-bare-numbers-nonstrict-passes", c.loc(l3), "strict: non-quantity, non-string values raise; non-strict: untouched", "the strict/non-strict handling of bare values changed (strict must raise, non-strict must leave the value alone)")
-    if strict:
-        inner = [t for t in strict[0].body if isinstance(t, ast.If)]
-        ok = bool(inner) and "isinstance(values[ndx], str)" in norm(inner[0].test) and "ureg.parse_expression(values[ndx])" in norm(inner[0]) and any(isinstance(r, ast.Raise) for r in ast.walk(ast.Module(body=inner[0].orelse, type_ignores=[])))
-        ck.check(ok, "G-DOM", "_converter|strict-strings-parsed-others-raise", c.loc(strict[0]), "strings are parsed, anything else raises", "in strict mode strings are no longer parsed / other values no longer raise")
-        st = [n.id for n in cfgc.nodes if n.kind == "test" and norm(n.ast) == "isinstance(values[ndx], str)"]
-        loop_heads = [n.id for n in cfgc.nodes if n.kind == "for"]
-        for t in st:
-            p = edge_leads_only_to_raise(cfgc, t, "f", also_forbid=loop_heads)
-            ck.check(p is None, "G-DOM", "_converter|strict-non-quantity-non-string-raises", c.loc(cfgc.nodes[t].ast), "strict mode: a value that is neither Quantity nor str raises ValueError",
-                     "in strict mode a bare number reaches the wrapped function unconverted", witness(cfgc, p))
-    # packing by signature order
-    packs = sorted([l for l in walk_local(c.node) if isinstance(l, ast.For) and norm(l.iter) == "enumerate(sig.parameters)"], key=lambda l: l.lineno)
-    ok = len(packs) == 2 and "values.append(kw[param_name])" in norm(packs[0]) and "kw[param_name] = values[i]" in norm(packs[1]) and all("if i >= len_initial_values" in norm(l) for l in packs)
-    ck.check(ok, "G-PROV", "_converter|keyword-values-packed-and-unpacked-in-signature-order", c.loc(), "keyword/default values appended and written back by walking sig.parameters", "keyword/default values are no longer packed/unpacked by signature position")
+    from .. import shape
+    idx = l3.target.id if isinstance(l3.target, ast.Name) else "ndx"
+    is_qty = lambda a: isinstance(a, ast.Call) and call_name(a) == "isinstance" and len(a.args) == 2 and "Quantity" in norm(a.args[1])
+    is_str = lambda a: isinstance(a, ast.Call) and call_name(a) == "isinstance" and len(a.args) == 2 and norm(a.args[1]) == "str"
+    is_strict = lambda a: isinstance(a, ast.Name) and a.id == "strict"
+    convs = [x for x in ast.walk(l3) if isinstance(x, ast.Call) and call_name(x) == "_convert" and norm(x.func) == "ureg._convert"]
+    okc = len(convs) >= 1 and all(len(x.args) == 3 and not x.keywords for x in convs)   # in particular no inplace=True: the caller's quantity must not be rescaled
+    convs = [x for x in convs if len(x.args) == 3]
+    for x in convs:
+        m_, u_, d_ = (shape.resolve(a_, c.node) for a_ in x.args)
+        src_ok = isinstance(m_, ast.Attribute) and isinstance(u_, ast.Attribute) and m_.attr == "_magnitude" and u_.attr == "_units" and norm(m_.value) == norm(u_.value) \
+            and norm(m_.value) in (f"values[{idx}]", f"ureg.parse_expression(values[{idx}])")
+        okc = okc and src_ok and norm(d_) == f"args_as_uc[{idx}][0]"
+        par = getattr(x, "_parent", None)
+        okc = okc and isinstance(par, ast.Assign) and norm(par.targets[0]) == f"values[{idx}]"
+    ck.check(okc and any(shape.holds_at(x, c.node, is_qty, True) for x in convs), "G-PROV", "_converter|quantities-converted-to-declared-units", c.loc(l3), "quantities (and parsed strings) converted to the declared units through ureg._convert and stored back",
+             "quantities are no longer converted with ureg._convert(own magnitude, own units, declared units of this argument) and stored back in place")
+    raises = [r for r in ast.walk(l3) if isinstance(r, ast.Raise) and not shape.dead(r, c.node)]
+    okr = len(raises) >= 1 and all("ValueError" in norm(r) and shape.holds_at(r, c.node, is_strict, True) and shape.holds_at(r, c.node, is_qty, False) and shape.holds_at(r, c.node, is_str, False) for r in raises)
+    writes = [a_ for a_ in ast.walk(l3) if isinstance(a_, ast.Assign) and norm(a_.targets[0]) == f"values[{idx}]"]
+    okw = all(shape.holds_at(a_, c.node, is_qty, True) or (shape.holds_at(a_, c.node, is_strict, True) and shape.holds_at(a_, c.node, is_qty, False)) for a_ in writes)
+    ck.check(okr and okw, "G-DOM", "_converter|strict-refuses-bare-numbers-nonstrict-passes", c.loc(l3), "strict: non-quantity, non-string values raise; non-strict: untouched",
+             "the strict/non-strict handling of bare values changed (strict must raise for values that are neither Quantity nor str, non-strict must leave bare values alone)")
+    parses = [x for x in ast.walk(l3) if isinstance(x, ast.Call) and call_name(x) == "parse_expression"]
+    ck.check(len(parses) >= 1 and all(shape.holds_at(x, c.node, is_strict, True) and shape.holds_at(x, c.node, is_qty, False) for x in parses), "G-DOM", "_converter|strict-strings-parsed-others-raise", c.loc(l3), "in strict mode strings are parsed", "strings are no longer parsed only in strict mode for non-quantities")
+    # keyword/default values are appended to `values` and written back in signature order, for the parameters beyond the positional ones
+    dfc = defs_of(c)
+    app = [x for x in walk_local(c.node) if isinstance(x, ast.Call) and call_name(x) == "append" and norm(x.func.value) == "values" and x.args and isinstance(x.args[0], ast.Subscript) and norm(x.args[0].value) == "kw"]
+    back = [a_ for a_ in walk_local(c.node) if isinstance(a_, ast.Assign) and isinstance(a_.targets[0], ast.Subscript) and norm(a_.targets[0].value) == "kw" and isinstance(a_.value, ast.Subscript) and norm(a_.value.value) == "values"]
+    def from_sig(node):
+        cur = node
+        while cur is not None and not isinstance(cur, ast.For):
+            cur = getattr(cur, "_parent", None)
+        if cur is None:
+            return False
+        r_ = dfc.roots(cur.iter) | {norm(cur.iter)}
+        whole = " ".join(sorted(r_)) + " " + norm(cur)
+        return "sig.parameters" in whole and "len_initial_values" in whole
+    ok = len(app) == 1 and len(back) == 1 and from_sig(app[0]) and from_sig(back[0]) and norm(app[0].args[0].slice) == norm(back[0].targets[0].slice)
+    ck.check(ok, "G-PROV", "_converter|keyword-values-packed-and-unpacked-in-signature-order", c.loc(), "keyword/default values appended and written back by walking sig.parameters beyond the positional ones", "keyword/default values are no longer packed/unpacked by signature position")
     ck.check("return (values[:len_initial_values], kw, values_by_name)" in norm(c.node), "G-PROV", "_converter|returns-positional-keywords-named", c.loc(), "returns (positional, keywords, named values)", "the converter's return triple changed")
     fa = ix.func(RH, "_apply_defaults")
     ck.analysed(fa)
@@ -162,26 +194,67 @@ def run(ck, ix, tier):
         ck.analysed(g)
         src = norm(g.node)
         ck.check("values, kw = _apply_defaults(sig, values, kw)" in src and "converter(ureg, sig, values, kw, strict)" in src and "result = func(*new_values, **new_kw)" in src, "G-PROV", "wraps.wrapper|defaults-convert-call", g.loc(), "defaults -> conversion -> call with the converted values", "the wraps wrapper no longer applies defaults, converts and calls with the converted values")
-        ck.check("if ret[0] is None:\n    return result" in src.replace("        ", "    ").replace("            ", "    ") or "if ret[0] is None" in src, "G-PROV", "wraps.wrapper|none-return-spec-passes-through", g.loc(), "ret=None returns the bare result", "a None return specification no longer passes the result through")
-        ck.check("ureg.Quantity(result, _replace_units(ret[0], values_by_name) if ret[1] else ret[0])" in src, "G-PROV", "wraps.wrapper|result-rewrapped-in-declared-or-derived-units", g.loc(), "result wrapped in declared (or derived) units", "the result is no longer re-wrapped in the declared/derived return units")
+        from .. import shape as _sh
+        # scalar return: `ret` is the (units, is_reference) pair; None units -> bare result, else Quantity(result, units or derived units)
+        qs = [x for x in walk_local(g.node) if isinstance(x, ast.Call) and norm(x.func) == "ureg.Quantity" and len(x.args) == 2 and norm(x.args[0]) == "result"]
+        unit_is_none = lambda a: isinstance(a, ast.Compare) and isinstance(a.ops[0], ast.Is) and norm(a.comparators[0]) == "None" and _sh.rnorm(a.left, g.node) in ("ret[0]",)
+        bare = [r for r in _sh.returns_of(g.node) if norm(r.value) == "result" and _sh.holds_at(r, g.node, unit_is_none, True)]
+        ck.check(len(bare) >= 1 and all(_sh.holds_at(x, g.node, unit_is_none, False) for x in qs), "G-PROV", "wraps.wrapper|none-return-spec-passes-through", g.loc(), "ret=None returns the bare result", "a None return specification no longer passes the result through (or a result is wrapped although the specification is None)")
+        okq = len(qs) == 1
+        if okq:
+            u_ = _sh.resolve(qs[0].args[1], g.node)
+            okq = isinstance(u_, ast.IfExp) and norm(u_.test) == "ret[1]" and _sh.match("_replace_units(ret[0], _V)", u_.body) is not None and "values_by_name" in norm(qs[0]) + norm(g.node) and norm(u_.orelse) == "ret[0]"
+        ck.check(okq, "G-PROV", "wraps.wrapper|result-rewrapped-in-declared-or-derived-units", g.loc(qs[0]) if qs else g.loc(), "result wrapped in declared (or derived) units", "the result is no longer re-wrapped in the declared units (derived from the named arguments when the specification is a reference)")
         ck.check("zip_longest(out_units, result)" in src and "res if unit is None else ureg.Quantity(res, unit)" in src, "G-PROV", "wraps.wrapper|tuple-results-rewrapped-elementwise", g.loc(), "tuple results re-wrapped element-wise", "tuple results are no longer re-wrapped element-wise")
     ck.check("converter = _parse_wrap_args(args)" in norm(f.node), "G-PROV", "wraps|converter-from-declared-args", f.loc(), "converter built from the declared args", "wraps no longer builds its converter from the declared args")
-    tests = [t for t in walk_local(f.node) if isinstance(t, ast.If) and "isinstance(arg, (ureg.Unit, str))" in norm(t.test)]
-    ck.check(len(tests) >= 2 and all(any(isinstance(r, ast.Raise) and "TypeError" in norm(r) for r in ast.walk(t)) for t in tests), "G-DOM", "wraps|specification-types-checked", f.loc(), "specifications must be str/Unit/None", "the type check of the unit specifications is gone")
+    # every declared specification (each element of args, ret or each element of ret) is type-checked (str / Unit / None)
+    # at decoration time, directly or through a local helper, and a wrong type raises TypeError
+    from .. import shape as _sh2
+    tc = lambda a: isinstance(a, ast.Call) and call_name(a) == "isinstance" and len(a.args) == 2 and "ureg.Unit" in norm(a.args[1]) and "str" in norm(a.args[1])
+    checked = set()
+    helpers = {g.name: g for g in f.module.all_functions if g.parent is f}
+    def type_checks(fn_node):
+        out = []
+        for r in ast.walk(fn_node):
+            if isinstance(r, ast.Raise) and "TypeError" in norm(r) and _sh2.holds_at(r, fn_node, tc, False):
+                for a_, t_ in _sh2.facts_at(r, fn_node):
+                    if tc(a_) and not t_:
+                        out.append(norm(a_.args[0]))
+        return out
+    for v in type_checks(f.node):
+        checked.add(v)
+    for nm, g in helpers.items():
+        params = [a_.arg for a_ in g.node.args.args]
+        for v in type_checks(g.node):
+            if v in params:
+                for c_ in walk_local(f.node):
+                    if isinstance(c_, ast.Call) and isinstance(c_.func, ast.Name) and c_.func.id == nm and len(c_.args) > params.index(v):
+                        checked.add(norm(c_.args[params.index(v)]))
+    ck.check({"arg", "ret"} <= checked, "G-DOM", "wraps|specification-types-checked", f.loc(), "argument and return specifications must be str/Unit/None", f"the type check of the unit specifications is incomplete: only {sorted(checked)} are checked (args elements, ret and ret elements must be)")
     # check wrapper
     check_wrapper_order_rule(ck, ix)
     f = ix.func(RH, "check")
     for g in [g for g in f.module.all_functions if g.name == "wrapper" and g.qualname.startswith(f.qualname)]:
         ck.analysed(g)
         cfg = cfg_of(g)
-        nt = [n.id for n in cfg.nodes if n.kind == "test" and norm(n.ast) == "dim is None"]
-        ok = bool(nt) and all(all(isinstance(cfg.nodes[v].ast, ast.Continue) for (v, lab) in cfg.succ[t] if lab == "t") for t in nt)
-        ck.check(ok, "G-EXH", "check.wrapper|none-skips-this-argument-only", g.loc(), "None skips the argument and continues with the next", "a None dimension no longer just skips its argument (break/return would skip the remaining checks)")
-        ct = [n.id for n in cfg.nodes if n.kind == "test" and "check(dim)" in norm(n.ast)]
-        for t in ct:
-            p = edge_leads_only_to_raise(cfg, t, "t" if isinstance(cfg.nodes[t].ast, ast.UnaryOp) else "f")
+        from .. import shape as _s3
+        is_none = lambda a: isinstance(a, ast.Compare) and isinstance(a.ops[0], ast.Is) and norm(a.comparators[0]) == "None" and norm(a.left) == "dim"
+        is_check = lambda a: isinstance(a, ast.Call) and call_name(a) == "check" and a.args and norm(a.args[0]) == "dim"
+        calls = [x for x in walk_local(g.node) if is_check(x)]
+        ck.floor("G-EXH", len(calls), 1, "dimension check calls in check.wrapper")
+        ok = all(_s3.holds_at(x, g.node, is_none, False) for x in calls)
+        for t in [t for t in walk_local(g.node) if isinstance(t, ast.If)]:
+            for p_, edge in _s3.atoms(t.test):
+                if is_none(p_):
+                    side = t.body if edge == "t" else t.orelse
+                    ok = ok and not any(isinstance(x, (ast.Break, ast.Return, ast.Raise)) for st in side for x in ast.walk(st))
+        ck.check(ok, "G-EXH", "check.wrapper|none-skips-this-argument-only", g.loc(), "a None dimension skips that argument only", "a None dimension is checked, or aborts the remaining checks (break/return/raise), instead of just skipping its argument")
+        failed = _s3.guard_edges(cfg, is_check, want=False)
+        ck.check(bool(failed), "G-DOM", "check.wrapper|failed-check-tested", g.loc(), "the outcome of .check(dim) is tested", "the outcome of .check(dim) is no longer tested")
+        for (t, lab) in failed:
+            p = edge_leads_only_to_raise(cfg, t, lab)
             ck.check(p is None, "G-DOM", "check.wrapper|failed-check-raises", g.loc(cfg.nodes[t].ast), "failed check raises DimensionalityError", "a failed dimension check does not raise", witness(cfg, p))
-        ck.check(bool(ct), "G-DOM", "check.wrapper|dimension-check-present", g.loc(), "arguments are checked with Quantity.check(dim)", "the wrapper no longer checks arguments with .check(dim)")
+        ck.check(bool(calls), "G-DOM", "check.wrapper|dimension-check-present", g.loc(), "arguments are checked with Quantity.check(dim)", "the wrapper no longer checks arguments with .check(dim)")
         ck.check("return func(*args, **kwargs)" in norm(g.node), "G-PROV", "check.wrapper|original-arguments-forwarded", g.loc(), "the original arguments are forwarded unchanged", "check no longer forwards the original arguments")
     src = norm(f.node)
     ck.check("ureg.get_dimensionality(dim) if dim is not None else None for dim in args" in src, "G-PROV", "check|declared-dimensions", f.loc(), "declared dimensions parsed, None kept", "check no longer parses the declared dimensions (keeping None)")
